@@ -831,6 +831,89 @@ func (p *TermPool) addNormal(a, b *Term, w int) *Term {
 	return res
 }
 
+// cancelCommonAddends: for an unsigned comparison of two sums neither of which can wrap (the sum of the upper bounds
+// of the addends plus the constant stays below 2^w), addends occurring on both sides and the common part of the
+// constants are removed: x + s < y + s  <=>  x < y when no addition overflows. Returns ok=false if nothing cancels
+// or a wrap cannot be excluded from the interval bounds.
+func (p *TermPool) cancelCommonAddends(a, b *Term, w int) (*Term, *Term, bool) {
+	split := func(t *Term) (atoms []*Term, k uint64, ok bool) {
+		var collect func(t *Term)
+		collect = func(t *Term) {
+			for t.op == OpBVAdd {
+				collect(t.args[0])
+				t = t.args[1]
+			}
+			if t.IsConst() {
+				k += t.val // constants of a normal-form sum were already combined; a wrap here is caught below
+				return
+			}
+			atoms = append(atoms, t)
+		}
+		collect(t)
+		// no-wrap check on the mathematical sum of upper bounds
+		tot := k
+		if k > mask(w) {
+			return nil, 0, false
+		}
+		for _, x := range atoms {
+			if x.hi > mask(w)-tot {
+				return nil, 0, false
+			}
+			tot += x.hi
+		}
+		return atoms, k, true
+	}
+	aa, ka, ok1 := split(a)
+	ba, kb, ok2 := split(b)
+	if !ok1 || !ok2 {
+		return nil, nil, false
+	}
+	cnt := map[int]int{}
+	for _, x := range ba {
+		cnt[x.id]++
+	}
+	var ra, rb []*Term
+	cancelled := false
+	for _, x := range aa {
+		if cnt[x.id] > 0 {
+			cnt[x.id]--
+			cancelled = true
+			continue
+		}
+		ra = append(ra, x)
+	}
+	// occurrences of b's addends that were not matched by one of a's
+	left := map[int]int{}
+	for _, x := range aa {
+		left[x.id]++
+	}
+	for _, x := range ba {
+		if left[x.id] > 0 {
+			left[x.id]--
+			continue
+		}
+		rb = append(rb, x)
+	}
+	kc := ka
+	if kb < kc {
+		kc = kb
+	}
+	if kc > 0 {
+		cancelled = true
+	}
+	if !cancelled {
+		return nil, nil, false
+	}
+	build := func(atoms []*Term, k uint64) *Term {
+		res := p.BVConst(w, k)
+		for _, x := range atoms {
+			res = p.addNormal(res, x, w)
+		}
+		return res
+	}
+	return build(ra, ka-kc), build(rb, kb-kc), true
+}
+
 // tryConcatOr recognises hi|lo where hi = concat(X, 0_k) and lo < 2^k.
 func (p *TermPool) tryConcatOr(hi, lo *Term, w int) *Term {
 	if hi.op == OpConcat && hi.args[1].IsConst() && hi.args[1].val == 0 {
@@ -916,6 +999,11 @@ func (p *TermPool) cmp(op Op, a, b *Term) *Term {
 	}
 	if a == b {
 		return p.Bool(op == OpBVUle || op == OpBVSle)
+	}
+	if (op == OpBVUlt || op == OpBVUle) && (a.op == OpBVAdd || b.op == OpBVAdd) && w <= 64 {
+		if ra, rb, ok := p.cancelCommonAddends(a, b, w); ok {
+			return p.cmp(op, ra, rb)
+		}
 	}
 	if (op == OpBVUlt || op == OpBVUle) && a.op == OpZext && b.op == OpZext && a.args[0].sort == b.args[0].sort {
 		return p.cmp(op, a.args[0], b.args[0])
